@@ -134,12 +134,25 @@ Ret(c, op) == IF op.op = "export" THEN ToMd(op.body, Apply(c, op).opts) ELSE <<>
 FlagName(f) == (IF "b" \in f THEN "b" ELSE "") \o (IF "i" \in f THEN "i" ELSE "")
                \o (IF "s" \in f THEN "s" ELSE "") \o (IF "c" \in f THEN "c" ELSE "")
 NonEmptyRuns(b) == SelectSeq(b.runs, LAMBDA r : Toks(r.c) # <<>>)
-\* two runs meet without white space between them
+\* two formatted runs meet without white space between them
 Tight(b) == LET rs == NonEmptyRuns(b)
             IN \E i \in 1..(Len(rs) - 1) :
                  LET x == Toks(rs[i].c)
                      y == Toks(rs[i + 1].c)
-                 IN x[Len(x)] \notin Ws /\ y[1] \notin Ws /\ rs[i].f # rs[i + 1].f
+                 IN x[Len(x)] \notin Ws /\ y[1] \notin Ws /\ rs[i].f # {} /\ rs[i + 1].f # {}
+\* a struck-through run that is also bold or italic touches a word (the ~~ then stands between a * and a letter)
+SNest(b) == LET rs == NonEmptyRuns(b)
+                sn(r) == "s" \in r.f /\ r.f \cap {"b", "i"} # {} /\ "c" \notin r.f
+            IN \E i \in 1..(Len(rs) - 1) :
+                 LET x == Toks(rs[i].c)
+                     y == Toks(rs[i + 1].c)
+                 IN x[Len(x)] \notin Ws /\ y[1] \notin Ws /\ (sn(rs[i]) \/ sn(rs[i + 1]))
+\* a word directly before an italic run (an underscore there is not an emphasis delimiter)
+Intra(b) == LET rs == NonEmptyRuns(b)
+            IN \E i \in 1..(Len(rs) - 1) :
+                 LET x == Toks(rs[i].c)
+                     y == Toks(rs[i + 1].c)
+                 IN x[Len(x)] \notin Ws /\ y[1] \notin Ws /\ ("i" \in rs[i].f) # ("i" \in rs[i + 1].f)
 
 Classes(b, o) ==
   IF b.k = "tbl" THEN
@@ -161,8 +174,10 @@ Classes(b, o) ==
     \cup (IF \E i \in 1..Len(b.runs) : b.runs[i].f # {} /\ Toks(b.runs[i].c) # <<>>
                                        /\ (Toks(b.runs[i].c)[1] \in Ws \/ Toks(b.runs[i].c)[Len(Toks(b.runs[i].c))] \in Ws) THEN {"fmt:edge"} ELSE {})
     \cup (IF Len(NonEmptyRuns(b)) > 1 THEN {"runs"} ELSE {})
-    \cup (IF Tight(b) THEN {"join"} ELSE {})
-    \cup (IF o.emph = "_" /\ \E i \in 1..Len(b.runs) : "i" \in b.runs[i].f /\ "b" \notin b.runs[i].f THEN {"opt:us"} ELSE {})
+    \cup (IF Tight(b) THEN {"join:fmt"} ELSE {})
+    \cup (IF \E i \in 1..Len(b.runs) : Cardinality(b.runs[i].f \ {"c"}) > 1 /\ Toks(b.runs[i].c) # <<>> THEN {"fmt:multi"} ELSE {})
+    \cup (IF SNest(b) THEN {"join:strike+"} ELSE {})
+    \cup (IF o.emph = "_" /\ Intra(b) THEN {"opt:us-intraword"} ELSE {})
     \cup (IF o.wrap > 0 /\ b.k = "p" THEN {"opt:wrap"} ELSE {})
     \cup (IF o.meta THEN {"opt:meta"} ELSE {})
 
@@ -291,7 +306,7 @@ Judge(B, o, obs0, ph) ==
         lo == IF emid = <<>> THEN (IF pre > 0 THEN exp[pre].src ELSE 1) ELSE emid[1].src
         hi == IF emid = <<>> THEN (IF suf > 0 THEN exp[Len(exp) - suf + 1].src ELSE Len(B)) ELSE emid[Len(emid)].src
         ks == UNION {Classes(B[emid[i].src], o) : i \in 1..Len(emid)} \cup AdjCls(B, lo, hi)
-              \cup (IF o.meta THEN {"opt:meta"} ELSE {}) \cup LiThen(B)
+              \cup (IF o.meta THEN {"opt:meta"} ELSE {}) \cup DocCls(B)
     IN {[fld |-> f, ks |-> ks] : f \in {"blocks"} \cup WordDiff(AllEWords(emid), AllOWords(omid))}
 
 \* the second export must reproduce the first one (stable = the harness's plain string comparison)
